@@ -191,13 +191,17 @@ def addServer (zeroInfo : Fields) (maxRetries : Int) (a : Addr) : Prog AddEnd :=
 
 /-! ## cleaners -/
 
+/-- the conflict callback of the cleaner's `Remove`: refuse when the latest record was refreshed after the cutoff -/
+def cleanResolver (cleanUntil : Int) : Resolver := fun c =>
+  match c.refreshedAt with
+  | some t => if t > cleanUntil then none else some c
+  | none => some c
+
 /-- `ServerCleaner.cleanServers` -/
 def removeAll (cleanUntil : Int) : List Server → Nat → Nat → Prog (Nat × Nat)
   | [], removed, errors => pure (removed, errors)
   | s :: rest, removed, errors =>
-    .call (.removeServer s fun c => match c.refreshedAt with
-        | some t => if t > cleanUntil then none else some c
-        | none => some c) fun r =>
+    .call (.removeServer s (cleanResolver cleanUntil)) fun r =>
     match r with
     | .error _ => removeAll cleanUntil rest removed (errors + 1)
     | .ok _ => removeAll cleanUntil rest (removed + 1) errors
